@@ -537,6 +537,51 @@ func CheckC09(run *ev.Run) {
 			}
 		}
 	}
+	// (e) enum VALUES: they are names (constants are derived from them, so the declaration skeleton legitimately depends on
+	// them) but they are also written as JSON text inside raw string literals of the generated validators: a backtick in a value
+	// must not end that literal. Only the injected identifier is looked for.
+	for _, kind := range []string{"model", "server", "client"} {
+		var doc map[string]interface{}
+		_ = json.Unmarshal(TextSpec(neutralVals), &doc)
+		pet := doc["definitions"].(map[string]interface{})["Pet"].(map[string]interface{})["properties"].(map[string]interface{})
+		curK, _ := pet["kind"].(map[string]interface{})["enum"].([]interface{})
+		pet["kind"].(map[string]interface{})["enum"] = append(append([]interface{}{}, curK...), "a`+ZQInjected+`b")
+		get := doc["paths"].(map[string]interface{})["/pets/{id}"].(map[string]interface{})["get"].(map[string]interface{})
+		for _, pp := range get["parameters"].([]interface{}) {
+			if pm := pp.(map[string]interface{}); pm["name"] == "q" {
+				cur, _ := pm["enum"].([]interface{})
+				pm["enum"] = append(append([]interface{}{}, cur...), "c`+ZQInjected+`d")
+			}
+		}
+		spec, _ := json.Marshal(doc)
+		root, specPath, target, err := NewTarget("c09e", spec)
+		if err != nil {
+			continue
+		}
+		args := []string{"-f", specPath, "-t", target}
+		if kind != "model" {
+			args = append(args, "-A", "textapp")
+		}
+		gerr := GenInProc(kind, args, nil)
+		run.Case("enum-value|" + kind)
+		if gerr != nil {
+			st["enum-value:generation-fails"]++
+			if os.Getenv("VERIF_DEBUG") != "" {
+				fmt.Fprintln(os.Stderr, "enum-value probe:", kind, tail(gerr.Error(), 400))
+			}
+			_ = os.RemoveAll(root)
+			continue
+		}
+		_, injected := declSkeleton(target)
+		_ = os.RemoveAll(root)
+		if injected {
+			st["enum-value:INJECTED"]++
+			run.Deviation("injection:"+kind+":enum-value:raw", "a backtick in an enum value ends the raw string literal the generated validator embeds the enum in: text of the spec is compiled as Go",
+				map[string]interface{}{"spec": json.RawMessage(spec), "target": kind, "how": "swagger generate " + kind + " -f spec.json -t target, then look for the identifier ZQInjected"})
+		} else {
+			st["enum-value:contained"]++
+		}
+	}
 	if len(run.Samples) == 0 {
 		run.Sample(map[string]interface{}{"field": "operation.summary", "payload": payloadFor("block"), "sites": len(sites)})
 		for f, v := range notOK {
